@@ -283,22 +283,83 @@ func init() {
 				}
 			}
 			allRes := true
-			var call *Site
-			for _, s := range sitesOf(f) {
-				if s.Callee != nil && s.Callee.Name() == "Call" && strings.Contains(qname(s.Callee), "reflect") {
-					ss := s
-					call = &ss
+			// effective returns: the function's own returns, and — where it ends in `return s.helper(..)` with a same-package
+			// helper — the helper's returns, with the helper's parameters read as the arguments of the call (refactoring
+			// C11-R12 moves the reflective call and the notification arm into such a helper)
+			type effRet struct {
+				results   []ssa.Value
+				d         dnf
+				pos       string
+				afterCall bool
+			}
+			isReflectCall := func(s Site) bool {
+				return s.Callee != nil && s.Callee.Name() == "Call" && strings.Contains(qname(s.Callee), "reflect")
+			}
+			reflectCallIn := func(g *ssa.Function) *Site {
+				for _, s := range sitesOf(g) {
+					if isReflectCall(s) {
+						ss := s
+						return &ss
+					}
+				}
+				return nil
+			}
+			var effs []effRet
+			for _, ret := range returnsOf(f) {
+				var fwd *ssa.Call
+				all := len(ret.Results) > 0
+				for i, r := range ret.Results {
+					ex, ok := r.(*ssa.Extract)
+					if !ok || ex.Index != i {
+						all = false
+						break
+					}
+					cl, ok := ex.Tuple.(*ssa.Call)
+					if !ok || (fwd != nil && cl != fwd) {
+						all = false
+						break
+					}
+					fwd = cl
+				}
+				var g *ssa.Function
+				if all && fwd != nil {
+					g = fwd.Call.StaticCallee()
+				}
+				if g == nil || len(g.Blocks) == 0 || pkgRelOf(g) != pkgRelOf(f) {
+					rc := reflectCallIn(f)
+					effs = append(effs, effRet{ret.Results, p.mustHoldAt(ret.Ret), p.Pos(posOf(ret.Ret, f)), rc != nil && dominatesInstr(rc.Instr, ret.Ret)})
+					continue
+				}
+				site := Site{Instr: fwd, Callee: g}
+				rcf, rcg := reflectCallIn(f), reflectCallIn(g)
+				for _, gr := range returnsOf(g) {
+					var mapped []ssa.Value
+					for _, v := range gr.Results {
+						if pa, ok := v.(*ssa.Parameter); ok {
+							for i, q := range g.Params {
+								if q == pa && i < len(fwd.Call.Args) {
+									v = fwd.Call.Args[i]
+								}
+							}
+						}
+						mapped = append(mapped, v)
+					}
+					after := (rcg != nil && dominatesInstr(rcg.Instr, gr.Ret)) || (rcf != nil && dominatesInstr(rcf.Instr, fwd))
+					effs = append(effs, effRet{mapped, p.mustHoldChain(gr.Ret, []Site{site}), p.Pos(posOf(gr.Ret, g)), after})
 				}
 			}
 			nNil, nResp := 0, 0
-			for _, ret := range returnsOf(f) {
-				if isNilConst(ret.Results[0]) {
+			for _, ret := range effs {
+				if len(ret.results) < 3 {
+					continue
+				}
+				if isNilConst(ret.results[0]) {
 					// either the sanity-error arm (error non-nil) or the notification arm
-					if isNilConst(ret.Results[2]) {
+					if isNilConst(ret.results[2]) {
 						nNil++
-						d := p.mustHoldAt(ret.Ret)
+						d := ret.d
 						ok, miss := everyDisjunctHas(d, []string{".ID == nil"})
-						okAfter := call != nil && dominatesInstr(call.Instr, ret.Ret)
+						okAfter := ret.afterCall
 						if !okAfter {
 							// before the handler call only on the arms on which the handler cannot run at all: unknown method, or
 							// arguments that could not be built
@@ -306,17 +367,16 @@ func init() {
 							bp, _ := everyDisjunctHas(d, []string{"buildArguments(", "!= nil"})
 							okAfter = len(d) > 0 && (nf || bp)
 						}
-						c.check(ok && okAfter, "notification", fmt.Sprintf("handleRequest: no response only for a request without id (#%d)", nNil), p.Pos(posOf(ret.Ret, f)), "nil response under res.ID == nil, after the handler ran (or where it cannot run)", "a nil response is returned although the request carries an id, or instead of running the handler: "+miss)
+						c.check(ok && okAfter, "notification", fmt.Sprintf("handleRequest: no response only for a request without id (#%d)", nNil), ret.pos, "nil response under res.ID == nil, after the handler ran (or where it cannot run)", "a nil response is returned although the request carries an id, or instead of running the handler: "+miss)
 					}
 					continue
 				}
 				// a response object is produced only for a request that carries an id: a notification is never answered, not even
 				// with method-not-found / invalid-params (JSON-RPC 2.0 §4.1; defect F23)
 				nResp++
-				dr := p.mustHoldAt(ret.Ret)
-				okID, missID := everyDisjunctHas(dr, []string{"^!", ".ID == nil"})
-				c.check(okID && len(dr) > 0, "notification", fmt.Sprintf("handleRequest: response only for a request with an id (#%d)", nResp), p.Pos(posOf(ret.Ret, f)), "the response is returned under ID != nil", "a response object is returned for a request without an id (a notification must never be answered, not even with an error): "+missID)
-				if ret.Results[0] != ssa.Value(res) {
+				okID, missID := everyDisjunctHas(ret.d, []string{"^!", ".ID == nil"})
+				c.check(okID && len(ret.d) > 0, "notification", fmt.Sprintf("handleRequest: response only for a request with an id (#%d)", nResp), ret.pos, "the response is returned under ID != nil", "a response object is returned for a request without an id (a notification must never be answered, not even with an error): "+missID)
+				if ret.results[0] != ssa.Value(res) {
 					allRes = false
 				}
 			}
@@ -637,6 +697,15 @@ func c11UnknownNameRejected(c *Ctx) {
 		case *ssa.Range:
 			if isM(x.X) {
 				pass[in.Block()] = "leftover scan over the params object"
+			}
+		case *ssa.Call:
+			// maps.Keys(params) / maps.Values(params): the leftover scan written with the standard library
+			cal := x.Call.StaticCallee()
+			if cal != nil && cal.Origin() != nil {
+				cal = cal.Origin()
+			}
+			if cal != nil && cal.Pkg != nil && cal.Pkg.Pkg.Path() == "maps" && len(x.Call.Args) > 0 && isM(x.Call.Args[0]) {
+				pass[in.Block()] = "leftover scan over the params object (maps." + cal.Name() + ")"
 			}
 		case *ssa.If:
 			b, ok := x.Cond.(*ssa.BinOp)
